@@ -61,11 +61,15 @@ def _native(ov, h, tests, logdir, tag):
     try:
         cmd = ["cargo", "kani", "playback", "-Z", "concrete-playback", "-p", h["crate"], "--",
                "kani_concrete_playback_%s_" % h["name"], "--test-threads", "1"]
-        rc, txt = _run(cmd, ov.tree, os.path.join(logdir, "replay-%s-%s.log" % (h["name"], tag)), 3600)
+        rc, txt = _run(cmd, ov.tree, os.path.join(logdir, "replay-%s-%s.log" % (h["name"], tag)), 1500)
     finally:
         with open(path, "w") as fh:
             fh.write(orig)
     failed = re.findall(r"^test (\S+) \.\.\. FAILED", txt, re.M)
+    # a playback test that started but never finished within the cap is a reproduced hang
+    if rc is None or rc < 0:
+        started = re.findall(r"^test (\S+) has been running for over", txt, re.M)
+        failed += ["%s (no result within the replay cap: hang)" % t for t in started[-1:]]
     passed = re.findall(r"^test (\S+) \.\.\. ok", txt, re.M)
     panics = re.findall(r"panicked at [^\n]*\n([^\n]*)", txt)
     return {"rc": rc, "failed": failed, "passed": passed, "panics": panics[:6],
